@@ -1,5 +1,7 @@
 INIT Init
 NEXT Next
 INVARIANT RenameOK
+INVARIANT RenameKeepsMeaning
 INVARIANT CanonOK
+INVARIANT DupsOK
 CHECK_DEADLOCK FALSE
